@@ -194,6 +194,10 @@ func c12SysCase(c *RunCtx, cs c12Case) {
 				g.Bus.Reply(r, []byte(`{"error":{"code":"system.notFound","message":"Not found"}}`), nil)
 			case "error":
 				g.Bus.Reply(r, []byte(`{"error":{"code":"t.down","message":"Down"}}`), nil)
+			case "timeout":
+				g.Bus.Timeout(r)
+			case "noresponders":
+				g.Bus.NoResponders(r)
 			case "mismatch":
 				if w.Get(name).Kind == RModel {
 					g.Bus.Reply(r, []byte(`{"result":{"collection":[1,2]}}`), nil)
@@ -222,12 +226,13 @@ func c12SysCase(c *RunCtx, cs c12Case) {
 	}
 	w.mu.Unlock()
 	s.Settle()
-	// derived events per outcome
+	// derived events per outcome (no responders is system.notFound to the gateway)
+	notFound := cs.Outcome == "notfound" || cs.Outcome == "noresponders"
 	for _, cl := range cls {
 		rc := s.RC(cl)
 		for _, n := range c12Names {
 			matched := wantGets[pair{n, ""}] > 0
-			if !rc.Holds(n) && cs.Outcome != "notfound" {
+			if !rc.Holds(n) && !notFound {
 				continue
 			}
 			var evs []string
@@ -237,14 +242,14 @@ func c12SysCase(c *RunCtx, cs c12Case) {
 				}
 			}
 			switch {
-			case !matched || cs.Outcome == "same" || cs.Outcome == "error" || cs.Outcome == "mismatch":
+			case !matched || cs.Outcome == "same" || cs.Outcome == "error" || cs.Outcome == "mismatch" || cs.Outcome == "timeout":
 				for _, ev := range evs {
-					if ev != "unsubscribe" || cs.Outcome != "notfound" {
+					if ev != "unsubscribe" || !notFound {
 						fail("eventWithoutChange", "resource %s received %v although nothing may have been derived for it (outcome %s, matched=%v)", n, evs, cs.Outcome, matched)
 						break
 					}
 				}
-			case cs.Outcome == "notfound":
+			case notFound:
 				hasDelete := false
 				for _, ev := range evs {
 					if ev == "delete" {
@@ -277,6 +282,52 @@ func c12SysCase(c *RunCtx, cs c12Case) {
 			}
 		}
 	}
+	// a re-fetch that failed leaves the resource as it was: a later reset
+	// re-fetches it again and the clients converge then
+	switch cs.Outcome {
+	case "error", "timeout", "mismatch":
+		if !s.ok {
+			break
+		}
+		for i, n := range c12Names {
+			i := i
+			w.Silent(n, func(r *Res) {
+				if r.Kind == RModel {
+					r.M["v"] = P(i + 200)
+					r.M["n2"] = P("again")
+				} else {
+					r.C = []Val{P("again"), P(i), P("p")}
+				}
+			})
+		}
+		n1 := g.Bus.NumReqs()
+		w.SystemReset(cs.Resources, nil)
+		s.Quiesce()
+		gotGets2 := map[pair]int{}
+		for _, r := range g.Bus.Reqs()[n1:] {
+			if r.Kind == "get" {
+				var p struct {
+					Query string `json:"query"`
+				}
+				json.Unmarshal(r.Payload, &p)
+				gotGets2[pair{r.Name, p.Query}]++
+			}
+		}
+		if render(gotGets2) != render(wantGets) {
+			fail("refetchSetAfterFailure", "after re-fetches ended with %q a second reset with resources=%v re-fetched {%s}; the cached resources matching are {%s}", cs.Outcome, cs.Resources, render(gotGets2), render(wantGets))
+		}
+		w.mu.Lock()
+		for name, res := range w.Res {
+			for _, p := range cs.Resources {
+				if refPatternMatch(p, name) {
+					res.Silent = false
+				}
+			}
+		}
+		w.mu.Unlock()
+		s.Settle()
+		c.Stat("c12_second_resets", 1)
+	}
 	res := s.Finish()
 	for _, v := range res.Viol {
 		prop, sig := v.Prop, v.Sig
@@ -293,7 +344,7 @@ func c12SysCase(c *RunCtx, cs c12Case) {
 func c12System(c *RunCtx) {
 	idx := 0
 	for _, pl := range c12PatternLists {
-		for _, outcome := range []string{"changed", "same", "notfound", "mismatch", "error"} {
+		for _, outcome := range []string{"changed", "same", "notfound", "mismatch", "error", "timeout", "noresponders"} {
 			for _, overlap := range []string{"none", "double"} {
 				for _, conns := range []int{1, 3} {
 					idx++
